@@ -149,3 +149,8 @@ package cookies
 //@ prop C18
 //@ scan[set-cookie-values-from-constructor] cookie-constructor pkg/cookies.MakeCookieFromOptions pkg/sessions/cookie.(*SessionStore).makeCookie pkg/sessions/persistence.(*ticket).makeCookie pkg/sessions/cookie.(*SessionStore).makeSessionCookie pkg/sessions/cookie.copyCookie pkg/sessions/cookie.splitCookie
 //@ scan[cookie-literals] alloc-of net/http.Cookie pkg/cookies.MakeCookieFromOptions pkg/sessions/cookie.copyCookie pkg/validation.validateCookieName
+
+// the longest-first order validation gives Cookie.Domains (requires[config:domains-sorted-longest-first] of GetCookieDomain)
+// survives until request handling: nothing outside validation reorders, overwrites or appends to that slice
+//@ prop C18
+//@ scan[cookie-domains-frozen-after-validation] slice-field-frozen Cookie.Domains pkg/validation.validateCookie pkg/validation.validateCookie$1
